@@ -124,3 +124,22 @@ package scheduler
 //@   calls Scheduler.uuidLock#1: set locked = $r
 //@   calls WorkerPool.KillContainer#1: requires locked && $0 == uuid
 //@   calls WorkerPool.ForgetContainer#1: requires locked && $0 == uuid
+
+// lockContainer / cancel: the API request is made only while holding the
+// per-container operation lock, only for the given container, and Lock only
+// for a container the queue still shows as Queued.
+//@ func Scheduler.lockContainer property C14
+//@   ghost locked bool = false
+//@   ghost st arvados.ContainerState = ""
+//@   ghost present bool = false
+//@   calls Scheduler.uuidLock#1: requires $0 == uuid
+//@   calls Scheduler.uuidLock#1: set locked = $r
+//@   calls ContainerQueue.Get#1: requires $0 == uuid
+//@   calls ContainerQueue.Get#1: set st = $r0.State
+//@   calls ContainerQueue.Get#1: set present = $r1
+//@   calls ContainerQueue.Lock#1: requires locked && present && st == arvados.ContainerStateQueued && $0 == uuid
+//@ func Scheduler.cancel property C14
+//@   ghost locked bool = false
+//@   calls Scheduler.uuidLock#1: requires $0 == uuid
+//@   calls Scheduler.uuidLock#1: set locked = $r
+//@   calls ContainerQueue.Cancel#1: requires locked && $0 == uuid
